@@ -52,3 +52,31 @@ Definition pc : profile_consts :=
 Definition failing_specs : list (string * bool * bool * list (string * N)) :=
   map (fun s => (ms_name s, wf_core std_fac s, wf_profile pc Factory.mesgs s, bad_slots pc Factory.mesgs s))
       (filter (fun s => negb (wf_mspec pc Factory.mesgs s)) MesgdefSpec.mspecs).
+
+(* ---- struct -> message -> struct, each half against the implementation *)
+Definition sval_eqb (a b : sval) : bool :=
+  match a, b with
+  | SVNum x, SVNum y => x =? y
+  | SVTime x, SVTime y => (x =? y)%Z
+  | SVArr l, SVArr k => opt_eqb (leqb N.eqb) l k
+  | SVFix l, SVFix k => leqb N.eqb l k
+  | SVStr x, SVStr y => leqb N.eqb x y
+  | SVStrs l, SVStrs k => opt_eqb (leqb (leqb N.eqb)) l k
+  | SVFixStr l, SVFixStr k => leqb (leqb N.eqb) l k
+  | _, _ => false
+  end.
+Definition tstruct_eqb (a b : tstruct) : bool :=
+  leqb sval_eqb (t_slots a) (t_slots b) && (t_state a =? t_state b)
+  && leqb field_eqb (t_unknown a) (t_unknown b) && leqb dev_eqb (t_devs a) (t_devs b).
+
+(* (message number, options, struct, ToMesg(struct), NewXxx(ToMesg(struct))) as observed *)
+Definition check_struct_case (c : N * options * tstruct * message * tstruct) : bool :=
+  let '(num, o, t, m, t') := c in
+  match spec_of num with
+  | None => false
+  | Some s =>
+    match to_mesg std_fac s o t, reset s m with
+    | Ok m1, Ok t1 => mesg_eqb m1 m && tstruct_eqb t1 t'
+    | _, _ => false
+    end
+  end.
